@@ -55,10 +55,14 @@ Validate == /\ pc = "validate"
             /\ IF args.has /\ (~args.nd \/ args.n < 1) THEN Fail ELSE Goto("build")
 Build == /\ pc = "build"
          /\ IF args.appok /\ args.qok THEN Goto("dispatch") ELSE Fail
+(* newline format without a chunk size: the code refuses it ("should have been caught during CLI validation" - it is *)
+(* not), although run_newline_json is written to take the whole file as one chunk in that case.  Neither behaviour   *)
+(* touches a listed property, so the specification allows both: refuse, or run the file as a single chunk.           *)
 Dispatch == /\ pc = "dispatch"
-            /\ IF ~args.has /\ args.nd THEN Fail          \* "should have been caught during CLI validation" - it is not
+            /\ IF ~args.has /\ args.nd THEN (Fail \/ Goto("chunks"))
                ELSE IF ~args.has THEN Goto("document")
                ELSE Goto("chunks")
+ChunkSize == IF args.has THEN args.n ELSE Len(qfile.lines) + 1
 (* run_json: the whole document is one run *)
 Document == /\ pc = "document"
             /\ IF qfile.shape \in {"array", "object", "queries"}
@@ -69,7 +73,7 @@ Document == /\ pc = "document"
 ReadChunk == /\ pc = "chunks"
              /\ IF next > Len(Lines)
                 THEN Goto("done")
-                ELSE LET last == MinOf(next + args.n - 1, Len(Lines)) IN
+                ELSE LET last == MinOf(next + ChunkSize - 1, Len(Lines)) IN
                      /\ chunk' = <<next, last>> /\ todo' = ItemsOf(next, last) /\ next' = last + 1
                      /\ pc' = "open" /\ UNCHANGED <<args, qfile, fmt, disk, disk0, logged, runs>>
 (* ResponseOutputPolicy::build at the start of CompassApp::run *)
@@ -85,7 +89,7 @@ WriteRec(it) == /\ pc = "write" /\ it \in todo
                 /\ UNCHANGED <<args, qfile, fmt, disk0, pc, next, chunk, logged, runs>>
 EndRun == /\ pc = "write" /\ todo = {}
           /\ logged' = logged + Cardinality(Bad(chunk[1], chunk[2]))
-          /\ pc' = IF args.has THEN "chunks" ELSE "done"
+          /\ pc' = IF qfile.shape = "lines" THEN "chunks" ELSE "done"
           /\ UNCHANGED <<args, qfile, fmt, disk, disk0, next, chunk, todo, runs>>
 
 CliStep == Validate \/ Build \/ Dispatch \/ Document \/ ReadChunk \/ OpenSink \/ EndRun
@@ -108,7 +112,7 @@ Complete == pc = "done" =>
               /\ fmt # "none" => {NewRecs[a] : a \in DOMAIN NewRecs} = ItemsOf(1, Len(Lines))
               /\ fmt = "none" => disk = disk0
               /\ logged = Cardinality(Bad(1, Len(Lines)))
-              /\ runs = (IF args.has THEN (Len(Lines) + args.n - 1) \div args.n ELSE 1)
+              /\ runs = (IF qfile.shape = "lines" THEN (Len(Lines) + ChunkSize - 1) \div ChunkSize ELSE 1)
 (* an invocation that is refused runs nothing and leaves the file alone *)
 RefusedUntouched == pc = "failed" => disk = disk0 /\ runs = 0
 (* the next chunk starts only after every record of the current one is delivered *)
